@@ -212,6 +212,11 @@ def main(argv=None):
         os.makedirs(os.path.join(ROOT, 'evidence'), exist_ok=True)
         with open(os.path.join(ROOT, 'evidence', pid + '.json'), 'w') as fh:
             json.dump(ev, fh, indent=1, default=str)
+        if a.tier == 'thorough':
+            # the last thorough run is kept beside the per-run file, which the next quick run overwrites
+            os.makedirs(os.path.join(ROOT, 'evidence_thorough'), exist_ok=True)
+            with open(os.path.join(ROOT, 'evidence_thorough', pid + '.json'), 'w') as fh:
+                json.dump(ev, fh, indent=1, default=str)
     brief = {k: v for k, v in cov.items() if k in SUMMABLE or k in ('shards', 'capped_shards', 'exhaustive')}
     print('%s %s tier=%s seed=%d wall=%.1fs %s' % (pid, 'FAIL' if rc else 'ok', a.tier, seed, time.time() - t0, json.dumps(brief)))
     return rc
